@@ -237,6 +237,13 @@ func genMisroute(g *Rng, tier string) *Plan {
 				{On: "StatusCode", Prefix: "Value", Value: saml.StatusSuccess}}
 			st.Labels["unused-ns-declarations"] = "correct" // informational: they change nothing
 		}
+		if g.Bool(0.1) {
+			// the same names as extension attributes in a foreign namespace, written by the IdP before it signs
+			v := Pick(g, misACS, misACS, "https://other-sp.example.net/saml/acs")
+			spec.QualAttrs = []NSDecl{{On: "Response", Prefix: "Destination", Value: v}, {On: "SubjectConfirmationData", Prefix: "Recipient", Value: v},
+				{On: "StatusCode", Prefix: "Value", Value: saml.StatusSuccess}}
+			st.Labels["foreign-ns-attributes"] = "correct"
+		}
 		spec.Assertions = []AsrtSpec{a}
 		if !clean && g.Bool(0.06) {
 			// what an IdP sends when it has nothing to assert (usually beside a non-Success status)
